@@ -2,16 +2,20 @@
 An executable twin of the direct reading (`Core.RefModel`) on a finite universe of values.
 
 `refCheckB s U M` evaluates, for a finite interpretation `M` and the finite universe `U`, exactly the clauses of `RefModel`
-with every quantifier over environments restricted to assignments of the sentence's variables in `U`.  It is NOT proved
-equivalent to `RefModel` (that needs range-restriction side conditions); it exists so that the harness can run the model's own
-reading on clingo's answer sets of the real output and on perturbed non-answer-sets (harness/props/c01.py, c02.py), next to
-the Python enumeration used by the search.
+with every quantifier over environments restricted to assignments of the sentence's variables in `U`.  `Cnl/RefExecSound.lean` proves it equivalent to `RefModel` for range-restricted specifications without aggregate sentences
+(`refCheckB_iff`); for aggregate sentences it is an unproved twin.  The harness runs it on clingo's answer sets of the real
+output and on perturbed non-answer-sets (harness/props/c01.py, c02.py), next to the Python enumeration used by the search.
 -/
 import Cnl2aspModel.Cnl.Core
 
 namespace Cnl2aspModel.Core.Exec
 open Asp Core
 open Generated (QOp)
+
+/-- remove repeated elements (keeps the last occurrence); own definition so that its lemmas are one-line inductions -/
+def dedup {α : Type} [DecidableEq α] : List α → List α
+  | [] => []
+  | a :: as => if a ∈ dedup as then dedup as else a :: dedup as
 
 def envOf (vs : List Nat) (vals : List Val) : Env := fun i =>
   match (vs.zip vals).lookup i with
@@ -36,7 +40,7 @@ def holdsB (M : List GAtom) (e : Env) : SLit → Bool
 def clauseHoldsB (M : List GAtom) (e : Env) (c : Clause) : Bool :=
   c.guards.all (holdsB M e) && holdsB M e c.core
 
-def varsOf (ls : List SLit) : List Nat := (ls.flatMap SLit.vars).eraseDups
+def varsOf (ls : List SLit) : List Nat := dedup (ls.flatMap SLit.vars)
 
 def cardMeaningB : Card → Nat → Bool
   | .any, _ => true
@@ -47,10 +51,10 @@ def cardMeaningB : Card → Nat → Bool
 
 /-- distinct tuples of an aggregate under the outer environment `e` (variables not in `outer` are local) -/
 def aggTuples (U : List Val) (M : List GAtom) (outer : List Nat) (e : Env) (a : Agg) : List (List Val) :=
-  let loc := ((a.cond.flatMap SLit.vars ++ a.tuple.flatMap Term.vars).eraseDups).filter (fun v => !outer.contains v)
-  ((assignments U loc).filterMap (fun vals =>
+  let loc := (dedup (a.cond.flatMap SLit.vars ++ a.tuple.flatMap Term.vars)).filter (fun v => !outer.contains v)
+  dedup ((assignments U loc).filterMap (fun vals =>
     let e' := extend e loc vals
-    if a.cond.all (holdsB M e') then some (a.tuple.map (Term.eval e')) else none)).eraseDups
+    if a.cond.all (holdsB M e') then some (a.tuple.map (Term.eval e')) else none))
 
 /-- evaluate the aggregates in order; `fn{…} = R` with `R` not yet bound assigns it -/
 def aggsHoldB (U : List Val) (M : List GAtom) (outer : List Nat) : Env → List Nat → List Agg → Option Env
@@ -74,13 +78,13 @@ def Sentence.satB (U : List Val) (M : List GAtom) : Sentence → Bool
   | .facts p ts => ts.all (fun t => M.contains ⟨p, t⟩)
   | .choice conds v card =>
       let outer := varsOf (choiceBody conds v)
-      let loc := ((v.atom.vars ++ (v.objs.flatMap (fun o => o.atom.vars))).eraseDups).filter (fun x => !outer.contains x)
+      let loc := (dedup (v.atom.vars ++ (v.objs.flatMap (fun o => o.atom.vars)))).filter (fun x => !outer.contains x)
       (assignments U outer).all (fun vals =>
         let e := envOf outer vals
         if M.contains (v.subj.atom.inst e) && conds.all (clauseHoldsB M e) then
-          let picks := (M.filter (fun g => (assignments U loc).any (fun lv =>
+          let picks := dedup (M.filter (fun g => (assignments U loc).any (fun lv =>
             let e' := extend e loc lv
-            g == v.atom.inst e' && v.objs.all (fun o => M.contains (o.atom.inst e'))))).eraseDups
+            g == v.atom.inst e' && v.objs.all (fun o => M.contains (o.atom.inst e')))))
           cardMeaningB card picks.length
         else true)
   | .derived v conds =>
